@@ -495,6 +495,14 @@ def dispatch(eng, st, body, callee, args):
             inner = eng.load_ptr(st, p0)
             if isinstance(inner, Ptr):
                 p0 = inner
+            elif isinstance(inner, Struct) and inner.ty == "Box" and inner.fields and isinstance(inner.fields[0], Struct) and inner.fields[0].ty == "Unique":
+                # Box { Unique { NonNull { ptr } }, allocator }: the pointee lives in the heap cell
+                q = inner.fields[0]
+                while isinstance(q, Struct) and q.fields:
+                    q = q.fields[0]
+                if isinstance(q, Ptr):
+                    p0 = q
+                break
             else:
                 break
         return _o(st, p0)
